@@ -1,5 +1,6 @@
 import Vata.Parse
 import Vata.Generated.Tables
+import Vata.InclUpBdd
 /-! # Driver side of the BDD-encoding checks: `bddincl`, `bddinclall` (C07), `bddh`, `bddtd` (C08) -/
 open Vata
 
@@ -29,6 +30,13 @@ def checkIncl (args res : List String) : Except String (List String × String) :
     if c == '-' then pure ()
     else if c == 'T' then over := over + 1
     else if c != bchar exp then f := f ++ [s!"violation bddincl[{n}]={c} reference={bchar exp}"]
+  -- the L2 model of the (repaired) bottom-up upward algorithm (`inclUpBdd_iff`) against the implementation's verdict
+  match checkInclUpBdd A B 200000 with
+  | some (b, _) =>
+    let c := v.toList[3]!
+    if c != 'T' && bchar b != c then f := f ++ [s!"mismatch bdd-upward-model verdict {bchar b} implementation {c}"]
+    if b != exp then throw "internal: certifying bdd upward model contradicts the reference"
+  | none => f := f ++ ["mismatch bdd-upward-model returned none (fuel / certificate)"]
   let eA ← getE (emptyM A FUEL) "fuel"
   pure (f, s!"incl={bchar exp} emptyA={bchar eA} overrun={over}")
 
